@@ -152,7 +152,8 @@ impl World {
             },
             "u" => CharacterData::UnsignedInteger(v["v"].as_str().unwrap_or("0").parse().unwrap_or(0)),
             "f" => CharacterData::Float(v["v"].as_str().unwrap_or("0").parse().unwrap_or(0.0)),
-            _ => CharacterData::String(v["v"].as_str().unwrap_or("").to_string()),
+            // (a double quote is written {22} in the specification: TLC chokes on a quote inside a string constant)
+            _ => CharacterData::String(v["v"].as_str().unwrap_or("").replace("{22}", "\"")),
         }
     }
 
@@ -163,7 +164,7 @@ impl World {
                 if is_ref && s.starts_with('/') {
                     json!({"k": "p", "v": path_to_json(s)})
                 } else {
-                    json!({"k": "s", "v": s})
+                    json!({"k": "s", "v": s.replace('"', "{22}")})
                 }
             }
             CharacterData::UnsignedInteger(u) => json!({"k": "u", "v": u.to_string()}),
